@@ -48,7 +48,7 @@ def plan(tier, seed):
                           'goal_in_variable_ops': 3000, 'ops_on_unknown_predicate': 500}}
     a = len(alphabet())
     exh = a + a ** 2 + a ** 3 + a ** 4
-    return {'n': 60000 + exh, 'deadline': 540, 'exh': exh,
+    return {'n': 220000 + exh, 'deadline': 540, 'exh': exh,
             'floor': {'distinct_nontrivial': 15000, 'ops_assert': 150000, 'ops_retract': 80000, 'ops_retractall': 30000,
                       'retract_abandoned': 15000, 'dumps_compared': 600000, 'exhaustive_histories': exh}}
 
